@@ -76,6 +76,73 @@ type fparams struct {
 	KeyLen    int    `json:"key_len"`
 	FileID    int64  `json:"file_id"` // 0: random identifier chosen by the writer
 	Uniform   bool   `json:"uniform"` // all values present and of fixed size (equal module sizes)
+	AllKeys   bool   `json:"all_keys,omitempty"` // every leaf column has its own key
+	RowSeed   int64  `json:"row_seed,omitempty"` // the rows derive from this seed (0: Seed); the keys always derive from Seed
+	// Hist: this file is file Hist.Index of a history of files that all come
+	// from ONE *EncryptionConfig value and the same writer options
+	Hist *history `json:"hist,omitempty"`
+}
+
+// sfile: what differs between the files of a history.
+type sfile struct {
+	RowSeed int64 `json:"row_seed"`
+	Rows    int   `json:"rows"`
+	RGRows  int   `json:"rg_rows"`
+}
+
+// history: several files produced from one EncryptionConfig value.
+type history struct {
+	// one letter per file: n = a new writer constructed with WithEncryption(cfg)
+	// for the one shared cfg, r = the writer of the previous file after Reset
+	Ops   string  `json:"ops"`
+	Eager bool    `json:"eager,omitempty"` // every writer is constructed before the first file is written
+	Index int     `json:"index"`           // the file the enclosing fparams describes
+	Files []sfile `json:"files"`           // rows of the files (entry Index: see fparams)
+}
+
+// sibling returns the description of file j of p's history.
+func (p *fparams) sibling(j int) *fparams {
+	q := *p
+	h := *p.Hist
+	h.Files = append([]sfile{}, p.Hist.Files...)
+	h.Files[p.Hist.Index] = sfile{p.RowSeed, p.Rows, p.RGRows}
+	h.Index = j
+	q.RowSeed, q.Rows, q.RGRows = h.Files[j].RowSeed, h.Files[j].Rows, h.Files[j].RGRows
+	q.Hist = &h
+	return &q
+}
+
+// setGeometry gives every file of the history the same number of rows and row groups.
+func (p *fparams) setGeometry(rows, rgRows int) {
+	p.Rows, p.RGRows = rows, rgRows
+	if p.Hist != nil {
+		h := *p.Hist
+		h.Files = append([]sfile{}, p.Hist.Files...)
+		for j := range h.Files {
+			h.Files[j].Rows, h.Files[j].RGRows = rows, rgRows
+		}
+		p.Hist = &h
+	}
+}
+
+// ownKey: does the configuration give this leaf column its own key?
+func (p *fparams) keyMode() string {
+	switch {
+	case p.AllKeys:
+		return "all-columns"
+	case p.ColKeys:
+		return "some-columns"
+	}
+	return "footer-only"
+}
+
+func (p *fparams) ownKey(name string) bool {
+	for _, l := range leafPaths {
+		if l == name {
+			return p.AllKeys || p.ColKeys && (name == "name" || name == "tags.list.element")
+		}
+	}
+	return false
 }
 
 func (p fparams) String() string { b, _ := json.Marshal(p); return string(b) }
@@ -86,7 +153,7 @@ func derive(seed int64, label string, n int) []byte {
 }
 
 func (p *fparams) key(name string) []byte {
-	if name != "footer" && !(p.ColKeys && (name == "name" || name == "tags.list.element")) {
+	if name != "footer" && !p.ownKey(name) {
 		name = "footer"
 	}
 	return derive(p.Seed, "key/"+name, p.KeyLen)
@@ -94,8 +161,13 @@ func (p *fparams) key(name string) []byte {
 
 func (p *fparams) encryption() *parquet.EncryptionConfig {
 	cfg := &parquet.EncryptionConfig{FooterKey: p.key("footer"), EncryptedFooter: p.EncFooter}
-	if p.ColKeys {
-		cfg.ColumnKeys = map[string][]byte{"name": p.key("name"), "tags.list.element": p.key("tags.list.element")}
+	for _, l := range leafPaths {
+		if p.ownKey(l) {
+			if cfg.ColumnKeys == nil {
+				cfg.ColumnKeys = map[string][]byte{}
+			}
+			cfg.ColumnKeys[l] = p.key(l)
+		}
 	}
 	if p.Prefix > 0 {
 		cfg.AadPrefix = derive(p.Seed, "prefix", p.Prefix)
@@ -124,7 +196,11 @@ func marker(r *smix, tag byte) string {
 func markerInt(r *smix) int64 { return int64(r.next()&0x3FFFFFFFFFFFFFFF | 1<<62) }
 
 func (p *fparams) rows() []rowP {
-	r := &smix{uint64(p.Seed)*7919 + 17}
+	seed := p.Seed
+	if p.RowSeed != 0 {
+		seed = p.RowSeed
+	}
+	r := &smix{uint64(seed)*7919 + 17}
 	names := make([]string, 6)
 	vals := make([]int64, 5)
 	for i := range names {
@@ -173,8 +249,7 @@ func codecOf(name string) compress.Codec {
 	return &parquet.Uncompressed
 }
 
-func writeT[T any](p *fparams, rows []T, encrypted bool) ([]byte, error) {
-	var buf bytes.Buffer
+func (p *fparams) options(cfg *parquet.EncryptionConfig) []parquet.WriterOption {
 	opts := []parquet.WriterOption{
 		parquet.DataPageVersion(p.V), parquet.Compression(codecOf(p.Codec)),
 		parquet.PageBufferSize(1), parquet.DataPageStatistics(true),
@@ -183,10 +258,15 @@ func writeT[T any](p *fparams, rows []T, encrypted bool) ([]byte, error) {
 		opts = append(opts, parquet.BloomFilters(parquet.SplitBlockFilter(10, "id"), parquet.SplitBlockFilter(10, "name"),
 			parquet.SplitBlockFilter(10, "tags", "list", "element")))
 	}
-	if encrypted {
-		opts = append(opts, parquet.WithEncryption(p.encryption()))
+	if cfg != nil {
+		opts = append(opts, parquet.WithEncryption(cfg))
 	}
-	w := parquet.NewGenericWriter[T](&buf, opts...)
+	return opts
+}
+
+// feedT writes the rows of one file (pages of p.PageRows rows, row groups of
+// p.RGRows rows) and closes the file.
+func feedT[T any](w *parquet.GenericWriter[T], p *fparams, rows []T) error {
 	pr := p.PageRows
 	if pr <= 0 || pr > 64 {
 		pr = 64
@@ -201,21 +281,65 @@ func writeT[T any](p *fparams, rows []T, encrypted bool) ([]byte, error) {
 			k = p.RGRows - inGroup
 		}
 		if _, err := w.Write(rows[i : i+k]); err != nil {
-			return nil, err
+			return err
 		}
 		i += k
 		inGroup += k
 		if p.RGRows > 0 && inGroup == p.RGRows && i < len(rows) {
 			if err := w.Flush(); err != nil {
-				return nil, err
+				return err
 			}
 			inGroup = 0
 		}
 	}
-	if err := w.Close(); err != nil {
+	return w.Close()
+}
+
+func writeT[T any](p *fparams, rows []T, encrypted bool) ([]byte, error) {
+	var buf bytes.Buffer
+	var cfg *parquet.EncryptionConfig
+	if encrypted {
+		cfg = p.encryption()
+	}
+	w := parquet.NewGenericWriter[T](&buf, p.options(cfg)...)
+	if err := feedT(w, p, rows); err != nil {
 		return nil, err
 	}
 	return buf.Bytes(), nil
+}
+
+// writeHistoryT writes every file of p's history: ONE EncryptionConfig value
+// is handed to every writer constructed, and a writer is reused through Reset
+// where the history says so.
+func writeHistoryT[T any](p *fparams, conv func([]rowP) []T) ([][]byte, error) {
+	h := p.Hist
+	cfg := p.encryption()
+	bufs := make([]*bytes.Buffer, len(h.Ops))
+	writers := make([]*parquet.GenericWriter[T], len(h.Ops))
+	for j := range bufs {
+		bufs[j] = new(bytes.Buffer)
+		if h.Eager && h.Ops[j] == 'n' {
+			writers[j] = parquet.NewGenericWriter[T](bufs[j], p.options(cfg)...)
+		}
+	}
+	var w *parquet.GenericWriter[T]
+	out := make([][]byte, len(h.Ops))
+	for j := range bufs {
+		switch {
+		case h.Ops[j] == 'r' && w != nil:
+			w.Reset(bufs[j])
+		case writers[j] != nil:
+			w = writers[j]
+		default:
+			w = parquet.NewGenericWriter[T](bufs[j], p.options(cfg)...)
+		}
+		q := p.sibling(j)
+		if err := feedT(w, q, conv(q.rows())); err != nil {
+			return nil, fmt.Errorf("file %d of the history: %w", j, err)
+		}
+		out[j] = bufs[j].Bytes()
+	}
+	return out, nil
 }
 
 func toD(rows []rowP) []rowD {
@@ -240,10 +364,34 @@ func (p *fparams) write(rows []rowP, encrypted bool) (data []byte, err error) {
 			err = fmt.Errorf("PANIC: %v", r)
 		}
 	}()
+	if encrypted && p.Hist != nil {
+		all, err := p.writeAll()
+		if err != nil {
+			return nil, err
+		}
+		return all[p.Hist.Index], nil
+	}
 	if p.Dict {
 		return writeT(p, toD(rows), encrypted)
 	}
 	return writeT(p, rows, encrypted)
+}
+
+// writeAll writes the encrypted files of p's history (one file without history).
+func (p *fparams) writeAll() (all [][]byte, err error) {
+	defer func() {
+		if r := recover(); r != nil {
+			err = fmt.Errorf("PANIC: %v", r)
+		}
+	}()
+	if p.Hist == nil {
+		d, err := p.write(p.rows(), true)
+		return [][]byte{d}, err
+	}
+	if p.Dict {
+		return writeHistoryT(p, toD)
+	}
+	return writeHistoryT(p, func(r []rowP) []rowP { return r })
 }
 
 // ---------------------------------------------------------------------------
@@ -253,6 +401,8 @@ type keyset struct {
 	p       *fparams
 	missing map[string]bool   // ErrKeyNotFound for these columns
 	wrong   map[string][]byte // other key material for "footer" or a column
+	// the reader holds the footer key only and answers it for every column
+	footerOnly bool
 }
 
 func (k *keyset) FooterKey([]byte) ([]byte, error) {
@@ -269,6 +419,9 @@ func (k *keyset) ColumnKey(path []string, _ []byte) ([]byte, error) {
 	}
 	if w, ok := k.wrong[name]; ok {
 		return w, nil
+	}
+	if k.footerOnly {
+		return k.p.key("footer"), nil
 	}
 	return k.p.key(name), nil
 }
@@ -511,6 +664,66 @@ func decodeThrift(b []byte, v any) (int, error) {
 // walk parses the file with the model's AADs.  A failure here means that
 // makeAAD, the ordinals of the writer or the layout of the file differ from
 // the model (or from the Parquet encryption layout this harness implements).
+// cryptoMDError: the ColumnCryptoMetaData of a column chunk is not the one the
+// key assignment of the configuration requires.
+type cryptoMDError struct{ what string }
+
+func (e *cryptoMDError) Error() string { return e.what }
+
+// checkCryptoMD: a column with its own key carries ENCRYPTION_WITH_COLUMN_KEY
+// naming its own path, any other column ENCRYPTION_WITH_FOOTER_KEY.
+func checkCryptoMD(p *fparams, rg, col int, ch *format.ColumnChunk) error {
+	if col >= len(leafPaths) {
+		return &cryptoMDError{fmt.Sprintf("rg %d: column chunk %d of a schema of %d leaves", rg, col, len(leafPaths))}
+	}
+	path := leafPaths[col]
+	switch cm := ch.CryptoMetadata.Value.(type) {
+	case *format.EncryptionWithColumnKey:
+		if got := strings.Join(cm.PathInSchema, "."); !p.ownKey(path) || got != path {
+			return &cryptoMDError{fmt.Sprintf("rg %d col %d (%s, own key: %v): crypto_metadata is ENCRYPTION_WITH_COLUMN_KEY with path_in_schema %q", rg, col, path, p.ownKey(path), got)}
+		}
+	case *format.EncryptionWithFooterKey:
+		if p.ownKey(path) {
+			return &cryptoMDError{fmt.Sprintf("rg %d col %d (%s has its own key): crypto_metadata is ENCRYPTION_WITH_FOOTER_KEY", rg, col, path)}
+		}
+	default:
+		return &cryptoMDError{fmt.Sprintf("rg %d col %d (%s): no crypto_metadata (%T)", rg, col, path, ch.CryptoMetadata.Value)}
+	}
+	return nil
+}
+
+// fileUniqueOf reads aad_file_unique from the clear part of the file tail.
+func fileUniqueOf(data []byte) ([]byte, error) {
+	n := len(data)
+	if n < 12 {
+		return nil, fmt.Errorf("file too short")
+	}
+	flen := int(binary.LittleEndian.Uint32(data[n-8:]))
+	if flen+12 > n {
+		return nil, fmt.Errorf("footer length %d", flen)
+	}
+	footer := data[n-8-flen : n-8]
+	var algo format.EncryptionAlgorithm
+	if string(data[n-4:]) == "PARE" {
+		var cm format.FileCryptoMetaData
+		if _, err := decodeThrift(footer, &cm); err != nil {
+			return nil, err
+		}
+		algo = cm.EncryptionAlgorithm
+	} else {
+		var md format.FileMetaData
+		if _, err := decodeThrift(footer, &md); err != nil {
+			return nil, err
+		}
+		algo = md.EncryptionAlgorithm
+	}
+	a, ok := algo.Value.(*format.AesGcmV1)
+	if !ok {
+		return nil, fmt.Errorf("algorithm %T", algo.Value)
+	}
+	return a.AadFileUnique, nil
+}
+
 func walk(c *core.Ctx, p *fparams, data []byte) (*walked, error) {
 	w := &walked{}
 	n := len(data)
@@ -595,13 +808,12 @@ func walk(c *core.Ctx, p *fparams, data []byte) (*walked, error) {
 		w.ClearMD = append(w.ClearMD, make([]format.ColumnMetaData, len(rg.Columns)))
 		for j := range rg.Columns {
 			ch := &rg.Columns[j]
+			if err := checkCryptoMD(p, i, j, ch); err != nil {
+				return nil, err
+			}
 			keyName := "footer"
-			switch cm := ch.CryptoMetadata.Value.(type) {
-			case *format.EncryptionWithColumnKey:
+			if cm, ok := ch.CryptoMetadata.Value.(*format.EncryptionWithColumnKey); ok {
 				keyName = strings.Join(cm.PathInSchema, ".")
-			case *format.EncryptionWithFooterKey:
-			default:
-				return nil, fmt.Errorf("rg %d col %d: no crypto metadata (%T)", i, j, ch.CryptoMetadata.Value)
 			}
 			key := p.key(keyName)
 			md := ch.MetaData
@@ -977,7 +1189,7 @@ func plaintextScan(c *core.Ctx, p *fparams, rows []rowP, data []byte, w *walked)
 func genParams(c *core.Ctx, i int) *fparams {
 	r := c.Rng
 	p := &fparams{Seed: r.Int63n(1 << 40), V: 1 + r.Intn(2), Dict: r.Intn(2) == 0, Bloom: r.Intn(3) == 0,
-		EncFooter: i%2 == 0, ColKeys: (i/2)%2 == 0, KeyLen: []int{16, 24, 32}[r.Intn(3)],
+		EncFooter: i%2 == 0, ColKeys: (i/2)%3 == 0, AllKeys: (i/2)%3 == 2, KeyLen: []int{16, 24, 32}[r.Intn(3)],
 		Codec: []string{"uncompressed", "uncompressed", "snappy", "gzip", "zstd"}[r.Intn(5)]}
 	p.Rows = 1 + r.Intn(c.N(160, 400))
 	p.PageRows = 1 + r.Intn(40)
@@ -993,6 +1205,193 @@ func genParams(c *core.Ctx, i int) *fparams {
 	return p
 }
 
+// genHistory: two or three files written from ONE EncryptionConfig value, by
+// writers constructed from it and by writers reused through Reset, x footer
+// mode x key assignment (footer key only, some columns, all columns); the
+// configuration names no file identifier in 3 histories of 4.
+var historyOps = []string{"nr", "nn", "nrr", "nrn", "nnr", "nr", "nnn", "nrr"}
+
+func genHistory(c *core.Ctx, i int) *fparams {
+	r := c.Rng
+	p := genParams(c, i)
+	p.EncFooter = i%2 == 0
+	p.ColKeys, p.AllKeys = (i/2)%3 == 1, (i/2)%3 == 2
+	p.Rows = 1 + r.Intn(c.N(48, 120))
+	p.RGRows = 0
+	if r.Intn(3) != 0 {
+		p.RGRows = 1 + r.Intn(p.Rows)
+	}
+	p.Uniform = r.Intn(2) == 0
+	p.FileID = 0
+	if i%4 == 3 {
+		p.FileID = 1 + r.Int63n(1<<40)
+	}
+	h := &history{Ops: historyOps[(i/6)%len(historyOps)]}
+	h.Eager = strings.Count(h.Ops, "n") > 1 && r.Intn(3) == 0
+	for range h.Ops {
+		f := sfile{RowSeed: 1 + r.Int63n(1<<40), Rows: p.Rows, RGRows: p.RGRows}
+		if r.Intn(2) == 0 {
+			// another geometry (otherwise: equal module sizes, when the rows are uniform)
+			f.Rows = 1 + r.Intn(c.N(48, 120))
+			f.RGRows = 0
+			if r.Intn(3) != 0 {
+				f.RGRows = 1 + r.Intn(f.Rows)
+			}
+		}
+		h.Files = append(h.Files, f)
+	}
+	p.Hist = h
+	return p.sibling(0)
+}
+
+func (h *history) describe() string {
+	var parts []string
+	for j := range h.Ops {
+		if h.Ops[j] == 'r' {
+			parts = append(parts, fmt.Sprintf("file %d: the writer of file %d after Reset", j, j-1))
+		} else {
+			parts = append(parts, fmt.Sprintf("file %d: a new writer", j))
+		}
+	}
+	s := "files written from one EncryptionConfig value (" + strings.Join(parts, "; ")
+	if h.Eager {
+		s += "; all writers constructed before the first file is written"
+	}
+	return s + ")"
+}
+
+// checkHistory writes the files of p's history in one run; every file is
+// checked like a fresh file (checkData), then across the files: without a
+// configured identifier no two files carry the same aad_file_unique, and a
+// module of one file put in the place of the module with the same type and
+// ordinals (and size) of another file makes the read fail.
+func checkHistory(c *core.Ctx, p *fparams, record bool) bool {
+	h := p.Hist
+	all, err := p.writeAll()
+	if err != nil {
+		c.Violation("write-error", fmt.Sprintf("writing %s failed: %v; %s", h.describe(), err, p), map[string]any{"kind": "history", "params": p})
+		return false
+	}
+	ok := true
+	files := make([]*tfile, len(all))
+	ids := make([][]byte, len(all))
+	for j := range all {
+		q := p.sibling(j)
+		rows := q.rows()
+		fok, w := checkData(c, q, rows, all[j], record)
+		if !fok {
+			ok = false
+		}
+		if w != nil {
+			files[j] = &tfile{q, rows, all[j], w}
+		}
+		if ids[j], err = fileUniqueOf(all[j]); err != nil {
+			ids[j] = nil
+		}
+	}
+	if !ok {
+		return false
+	}
+	if p.FileID != 0 {
+		// the caller pinned the identifier: every file carries it (walk), and the
+		// files are interchangeable by the caller's choice
+		return ok
+	}
+	for j := range all {
+		for k := j + 1; k < len(all); k++ {
+			c.Res.Evaluations++
+			if ids[j] != nil && bytes.Equal(ids[j], ids[k]) {
+				c.Violation("file-identifier-reused", fmt.Sprintf("%s, no FileIdentifier configured: files %d and %d carry the same aad_file_unique %x, so that the AADs of their modules coincide; %s", h.describe(), j, k, ids[j], p),
+					map[string]any{"kind": "history", "params": p})
+				ok = false
+			}
+		}
+	}
+	// cross-file replacements: a few per ordered pair of files, of different module types
+	for k := range files {
+		for j := range files {
+			if j == k || files[j] == nil || files[k] == nil {
+				continue
+			}
+			cands := enumerate(c, files[k], files[j], "xfile", -1, 1, true)
+			c.Rng.Shuffle(len(cands), func(a, b int) { cands[a], cands[b] = cands[b], cands[a] })
+			seen := map[int]bool{}
+			for ci := range cands {
+				tc := &cands[ci]
+				if seen[tc.Target.Type] || len(seen) >= 4 {
+					continue
+				}
+				seen[tc.Target.Type] = true
+				tc.Mut.From = j + 1
+				if !files[k].runCase(c, tc, files[j]) {
+					return false
+				}
+			}
+		}
+	}
+	return ok
+}
+
+// shrinkHistory simplifies a failing history: the options like shrinkFile,
+// then fewer and smaller files.
+func shrinkHistory(c *core.Ctx, p *fparams) *fparams {
+	cur := *p
+	fails := func(q *fparams) bool { return c.Probe(func() { checkHistory(c, q, false) }) }
+	dropFile := func(q *fparams, j int) bool {
+		if len(q.Hist.Ops) <= 2 || j >= len(q.Hist.Ops) {
+			return false
+		}
+		full := q.sibling(q.Hist.Index).Hist
+		ops := []byte(full.Ops)
+		if ops[j] == 'n' && j+1 < len(ops) {
+			ops[j+1] = 'n'
+		}
+		nh := &history{Eager: full.Eager}
+		for k := range ops {
+			if k != j {
+				nh.Ops += string(ops[k])
+				nh.Files = append(nh.Files, full.Files[k])
+			}
+		}
+		q.Hist = nh
+		q.RowSeed, q.Rows, q.RGRows = nh.Files[0].RowSeed, nh.Files[0].Rows, nh.Files[0].RGRows
+		return true
+	}
+	mods := []func(q *fparams) bool{
+		func(q *fparams) bool { return dropFile(q, len(q.Hist.Ops)-1) },
+		func(q *fparams) bool { return dropFile(q, 0) },
+		func(q *fparams) bool { return dropFile(q, 1) },
+		func(q *fparams) bool { ok := q.Hist.Eager; h := *q.Hist; h.Eager = false; q.Hist = &h; return ok },
+		func(q *fparams) bool {
+			small := true
+			for _, f := range q.sibling(0).Hist.Files {
+				small = small && f.Rows <= 4 && f.RGRows == 0
+			}
+			q.setGeometry(4, 0)
+			return !small
+		},
+		func(q *fparams) bool { ok := q.Bloom; q.Bloom = false; return ok },
+		func(q *fparams) bool { ok := q.Codec != "uncompressed"; q.Codec = "uncompressed"; return ok },
+		func(q *fparams) bool { ok := q.Dict; q.Dict = false; return ok },
+		func(q *fparams) bool { ok := q.Prefix != 0; q.Prefix = 0; return ok },
+		func(q *fparams) bool { ok := q.AllKeys; q.AllKeys = false; q.ColKeys = true; return ok },
+		func(q *fparams) bool { ok := q.ColKeys || q.AllKeys; q.ColKeys, q.AllKeys = false, false; return ok },
+		func(q *fparams) bool { ok := q.KeyLen != 16; q.KeyLen = 16; return ok },
+		func(q *fparams) bool { ok := q.PageRows < 64; q.PageRows = 64; return ok },
+		func(q *fparams) bool { ok := !q.Uniform; q.Uniform = true; return ok },
+	}
+	for changed := true; changed; {
+		changed = false
+		for _, mod := range mods {
+			q := cur
+			if mod(&q) && fails(&q) {
+				cur, changed = q, true
+			}
+		}
+	}
+	return &cur
+}
+
 // checkFile runs (a) (b) (c) on one parameter set; false when something was reported.
 func checkFile(c *core.Ctx, p *fparams, record bool) bool {
 	rows := p.rows()
@@ -1001,6 +1400,12 @@ func checkFile(c *core.Ctx, p *fparams, record bool) bool {
 		c.Violation("write-error", fmt.Sprintf("writing an encrypted file failed: %v; file %s", err, p), map[string]any{"kind": "file", "params": p})
 		return false
 	}
+	ok, _ := checkData(c, p, rows, data, record)
+	return ok
+}
+
+// checkData runs (a) (b) (c) on the bytes of the file p describes.
+func checkData(c *core.Ctx, p *fparams, rows []rowP, data []byte, record bool) (bool, *walked) {
 	ok := true
 	fail := func(class, what string) {
 		c.Violation(class, what+"; file "+p.String(), map[string]any{"kind": "file", "params": p})
@@ -1008,6 +1413,18 @@ func checkFile(c *core.Ctx, p *fparams, record bool) bool {
 	}
 	// (a) independent parse with the model's AADs
 	w, err := walk(c, p, data)
+	var cme *cryptoMDError
+	if errors.As(err, &cme) {
+		// the footer is not the one the Parquet encryption layout prescribes for
+		// the key assignment: readers resolve the keys through this field
+		o := p.touchAll(data, &keyset{p: p}, rows)
+		back := "the file reads back with the keys resolved by that path"
+		if o.failed() || !reflect.DeepEqual(o.Rows, rows) {
+			back = fmt.Sprintf("reading the file with the right keys, resolved by column path: err=%v panic=%q hung=%v, %d of %d rows", o.Err, o.Panic, o.Hung, len(o.Rows), len(rows))
+		}
+		fail("crypto-metadata", "the column chunk metadata of the written footer does not state the key of the column: "+cme.what+"; "+back)
+		return false, nil
+	}
 	if err != nil {
 		// is the file readable by the implementation itself?
 		o := p.touchAll(data, &keyset{p: p}, rows)
@@ -1017,7 +1434,7 @@ func checkFile(c *core.Ctx, p *fparams, record bool) bool {
 			c.Mismatch("corr:C18.aad", p.String(), "the file reads back but AES-GCM with the model's AADs fails: "+err.Error(), "every module opens under make_aad", p)
 			ok = false
 		}
-		return ok
+		return ok, nil
 	}
 	if !checkWriterModel(c, p, w) {
 		ok = false
@@ -1057,7 +1474,7 @@ func checkFile(c *core.Ctx, p *fparams, record bool) bool {
 		fail("roundtrip", fmt.Sprintf("rows read back differ from the rows written (%d vs %d rows)", len(o.Rows), len(rows)))
 	}
 	if !ok {
-		return false
+		return false, w
 	}
 	// (b') the same sequential read by a reader that has no page index (the
 	// page cursor then finds its way through the dictionary and data page
@@ -1071,7 +1488,7 @@ func checkFile(c *core.Ctx, p *fparams, record bool) bool {
 		if o.failed() || !reflect.DeepEqual(o.Rows, rows) {
 			c.Violation("roundtrip-no-index", fmt.Sprintf("reading an untampered encrypted file sequentially without its page index (option set %d): err=%v panic=%q hung=%v, %d rows, want %d; file %s", vi, o.Err, o.Panic, o.Hung, len(o.Rows), len(rows), p),
 				map[string]any{"kind": "file", "params": p})
-			return false
+			return false, w
 		}
 	}
 	// reads after SeekToRow, with and without the page index
@@ -1103,12 +1520,17 @@ func checkFile(c *core.Ctx, p *fparams, record bool) bool {
 		ok = false
 	}
 	if record {
-		c.Case(fmt.Sprintf("roundtrip/footer=%s/colkeys=%v/v%d/%s/dict=%v", map[bool]string{true: "encrypted", false: "plaintext"}[p.EncFooter], p.ColKeys, p.V, p.Codec, p.Dict),
-			p.String(), len(w.Mods) > 8)
+		footer := map[bool]string{true: "encrypted", false: "plaintext"}[p.EncFooter]
+		bucket := fmt.Sprintf("roundtrip/footer=%s/keys=%s/v%d/%s/dict=%v", footer, p.keyMode(), p.V, p.Codec, p.Dict)
+		if p.Hist != nil {
+			// which file of which kind of history
+			bucket = fmt.Sprintf("history/%s#%d/footer=%s/keys=%s", p.Hist.Ops, p.Hist.Index, footer, p.keyMode())
+		}
+		c.Case(bucket, p.String(), len(w.Mods) > 8)
 		c.Res.Evaluations += len(w.Mods) // modules opened with the model's AAD
 		c.Sample(map[string]any{"params": p, "modules": len(w.Mods), "layout": w.Layout})
 	}
-	return ok
+	return ok, w
 }
 
 // cursorHistories drives FilePages of single chunks through random histories
@@ -1206,11 +1628,29 @@ func cursorHistories(c *core.Ctx, p *fparams, rows []rowP, data []byte, w *walke
 
 // missingKey: the reader has no key for column "name".
 func missingKey(c *core.Ctx, p *fparams, rows []rowP, data []byte) bool {
-	if !p.ColKeys {
+	if !p.ownKey("name") {
 		return true
 	}
-	ks := &keyset{p: p, missing: map[string]bool{"name": true}}
 	ok := true
+	// a reader that holds the footer key only (and answers it for every column)
+	// does not get at a column that has its own key
+	fo := p.touchAll(data, &keyset{p: p, footerOnly: true}, rows)
+	switch {
+	case fo.Panic != "" || fo.Hung:
+		c.Violation("footer-key-only-panic", fmt.Sprintf("reader holding only the footer key: panic=%q hung=%v; file %s", fo.Panic, fo.Hung, p), map[string]any{"kind": "missing-key", "params": p})
+		ok = false
+	case fo.Err == nil:
+		c.Violation("footer-key-only-data", fmt.Sprintf("reader holding only the footer key read %d rows with a nil error although %s have their own keys; file %s", len(fo.Rows), p.keyMode(), p), map[string]any{"kind": "missing-key", "params": p})
+		ok = false
+	}
+	for _, r := range fo.Rows {
+		if r.Name != "" {
+			c.Violation("footer-key-only-data", "reader holding only the footer key obtained a value of column \"name\", which has its own key; file "+p.String(), map[string]any{"kind": "missing-key", "params": p})
+			ok = false
+			break
+		}
+	}
+	ks := &keyset{p: p, missing: map[string]bool{"name": true}}
 	// whole rows: must fail, must not panic
 	o := p.touchAll(data, ks, rows)
 	switch {
@@ -1282,6 +1722,10 @@ type mutation struct {
 	Src  *module `json:"src,omitempty"`   // transplant: the module copied over the target
 	Val  uint32 `json:"val,omitempty"`    // length: new value of the length field
 	Key  string `json:"keyname,omitempty"` // wrong-key: which key the reader gets wrong
+	// xfile: the source file. 0: the twin (another writer and configuration with
+	// the next explicit identifier; in a history the previous file, or the next
+	// one for file 0); k+1: file k of the history
+	From int `json:"from,omitempty"`
 }
 
 type tamperCase struct {
@@ -1321,6 +1765,46 @@ func buildTamperFile(c *core.Ctx, p *fparams) *tfile {
 		c.Violation("write-error", fmt.Sprintf("writing an encrypted file failed: %v; file %s", err, p), map[string]any{"kind": "file", "params": p})
 		return nil
 	}
+	return tamperFileOf(c, p, rows, data)
+}
+
+// buildTamperPair: the file p describes and the file modules are taken from
+// for the cross-file replacements.  Without history the twin is written by
+// another writer from another configuration value with the next explicit
+// identifier; the files of a history come from one run over one configuration.
+func buildTamperPair(c *core.Ctx, p *fparams, from int) (*tfile, *tfile) {
+	if p.Hist == nil {
+		t := buildTamperFile(c, p)
+		if t == nil {
+			return nil, nil
+		}
+		q := *p
+		q.FileID++ // same keys, same schema, same rows: another file
+		return t, buildTamperFile(c, &q)
+	}
+	all, err := p.writeAll()
+	if err != nil {
+		c.Violation("write-error", fmt.Sprintf("writing a history of encrypted files failed: %v; file %s", err, p), map[string]any{"kind": "file", "params": p})
+		return nil, nil
+	}
+	t := tamperFileOf(c, p, p.rows(), all[p.Hist.Index])
+	if t == nil {
+		return nil, nil
+	}
+	j := from - 1
+	if from == 0 {
+		if j = p.Hist.Index - 1; j < 0 {
+			j = 1
+		}
+	}
+	if j < 0 || j >= len(all) || j == p.Hist.Index {
+		return t, nil
+	}
+	q := p.sibling(j)
+	return t, tamperFileOf(c, q, q.rows(), all[j])
+}
+
+func tamperFileOf(c *core.Ctx, p *fparams, rows []rowP, data []byte) *tfile {
 	w, err := walk(c, p, data)
 	if err != nil {
 		c.Mismatch("corr:C18.aad", p.String(), "AES-GCM with the model's AADs fails: "+err.Error(), "every module opens under make_aad", p)
@@ -1414,7 +1898,20 @@ func (t *tfile) report(c *core.Ctx, tc *tamperCase, cls, what string) bool {
 	if tc.Mut.Kind == "wrong-key" {
 		class = "wrong-key-accepted"
 	}
-	c.Violation(class, fmt.Sprintf("%s of module {%v} (%+v, source {%v}): the read returned %s (%s) instead of an error; file %s", tc.Mut.Kind, tc.Target, tc.Mut, tc.Mut.Src, cls, what, t.p),
+	src := ""
+	if tc.Mut.Kind == "xfile" {
+		src = " taken from a twin file written with the same keys and another explicit identifier"
+		if h := t.p.Hist; h != nil {
+			j := tc.Mut.From - 1
+			if tc.Mut.From == 0 {
+				if j = h.Index - 1; j < 0 {
+					j = 1
+				}
+			}
+			src = fmt.Sprintf(" taken from file %d and put into file %d of: %s, no FileIdentifier configured", j, h.Index, h.describe())
+		}
+	}
+	c.Violation(class, fmt.Sprintf("%s of module {%v} (%+v, source {%v}%s): the read returned %s (%s) instead of an error; file %s", tc.Mut.Kind, tc.Target, tc.Mut, tc.Mut.Src, src, cls, what, t.p),
 		map[string]any{"kind": "tamper", "case": tc})
 	return false
 }
@@ -1425,6 +1922,20 @@ func tamperParams(c *core.Ctx, i int) *fparams {
 		Bloom: i%3 == 0, EncFooter: i%2 == 0, ColKeys: (i/2)%2 == 1, KeyLen: []int{16, 32, 24}[i%3], FileID: 1000 + int64(i), Uniform: true}
 	if i%5 == 4 {
 		p.Prefix = 5
+	}
+	// where the other file of the cross-file replacements comes from: a twin
+	// with another explicit identifier, or (no identifier configured) a second
+	// file from the same configuration value: another writer, the writer reset
+	switch (i / 2) % 3 {
+	case 1:
+		p.FileID = 0
+		p.Hist = &history{Ops: "nn", Index: 1, Files: []sfile{{0, p.Rows, p.RGRows}, {0, p.Rows, p.RGRows}}}
+	case 2:
+		p.FileID = 0
+		p.Hist = &history{Ops: "nr", Index: 1 - i/6%2, Files: []sfile{{0, p.Rows, p.RGRows}, {0, p.Rows, p.RGRows}}}
+	}
+	if i >= 6 && i%7 == 0 {
+		p.AllKeys = true
 	}
 	return p
 }
@@ -1438,18 +1949,18 @@ func shrinkTamper(c *core.Ctx, tc *tamperCase) *tamperCase {
 		mod(&p)
 		var found *tamperCase
 		c.Probe(func() {
-			t := buildTamperFile(c, &p)
+			var t, other *tfile
+			if best.Mut.Kind == "xfile" {
+				t, other = buildTamperPair(c, &p, best.Mut.From)
+			} else {
+				t = buildTamperFile(c, &p)
+			}
 			if t == nil {
 				return
 			}
-			var other *tfile
-			if best.Mut.Kind == "xfile" {
-				q := p
-				q.FileID++
-				other = buildTamperFile(c, &q)
-			}
 			for _, cand := range enumerate(c, t, other, best.Mut.Kind, best.Target.Type, 1, true) {
 				cand := cand
+				cand.Mut.From = best.Mut.From
 				if c.Probe(func() { t.runCase(c, &cand, other) }) {
 					found = &cand
 					return
@@ -1461,11 +1972,12 @@ func shrinkTamper(c *core.Ctx, tc *tamperCase) *tamperCase {
 		}
 	}
 	try(func(p *fparams) { p.Bloom = false })
-	try(func(p *fparams) { p.ColKeys = false })
+	try(func(p *fparams) { p.ColKeys = false; p.AllKeys = false })
+	try(func(p *fparams) { p.AllKeys = false })
 	try(func(p *fparams) { p.Prefix = 0 })
 	try(func(p *fparams) { p.Dict = false })
-	try(func(p *fparams) { p.RGRows = 0; p.Rows = 6 })
-	try(func(p *fparams) { p.Rows = 4; p.RGRows = 0 })
+	try(func(p *fparams) { p.setGeometry(6, 0) })
+	try(func(p *fparams) { p.setGeometry(4, 0) })
 	return best
 }
 
@@ -1535,8 +2047,10 @@ func enumerate(c *core.Ctx, t *tfile, other *tfile, kind string, onlyType int, s
 	}
 	if want("wrong-key") && onlyType < 0 {
 		names := []string{"footer"}
-		if t.p.ColKeys {
-			names = append(names, "name", "tags.list.element")
+		for _, l := range leafPaths {
+			if t.p.ownKey(l) {
+				names = append(names, l)
+			}
 		}
 		for _, k := range names {
 			out = append(out, tamperCase{*t.p, module{Type: -1, Key: k}, mutation{Kind: "wrong-key", Key: k}})
@@ -1551,13 +2065,10 @@ func tamperEnumeration(c *core.Ctx) {
 	pairs := 0
 	for i := 0; i < nFiles; i++ {
 		p := tamperParams(c, i)
-		t := buildTamperFile(c, p)
+		t, other := buildTamperPair(c, p, 0)
 		if t == nil {
 			continue
 		}
-		q := *p
-		q.FileID++ // same keys, same schema, same rows: another file
-		other := buildTamperFile(c, &q)
 		cases := enumerate(c, t, other, "", -1, stride, false)
 		// quick: a sample of the transplants (all pairs in thorough)
 		if c.Quick() {
@@ -1592,13 +2103,7 @@ func tamperEnumeration(c *core.Ctx) {
 			reported[tc.Mut.Kind] = true
 			min := shrinkTamper(c, tc)
 			if min != tc {
-				if mt := buildTamperFile(c, &min.Params); mt != nil {
-					var mo *tfile
-					if min.Mut.Kind == "xfile" {
-						mq := min.Params
-						mq.FileID++
-						mo = buildTamperFile(c, &mq)
-					}
+				if mt, mo := buildTamperPair(c, &min.Params, min.Mut.From); mt != nil {
 					if !mt.runCase(c, min, mo) {
 						continue
 					}
@@ -1610,7 +2115,7 @@ func tamperEnumeration(c *core.Ctx) {
 			c.Sample(map[string]any{"tamper_file": p, "modules": len(t.w.Mods), "cases": len(cases)})
 		}
 	}
-	c.Note("tamper enumeration: %d files, %d module replacements by a module of equal type and size (same file or a twin file with another identifier)", nFiles, pairs)
+	c.Note("tamper enumeration: %d files, %d module replacements by a module of equal type and size (same file; a twin file with another explicit identifier; another file written from the same configuration value without identifier by a second writer / by the same writer after Reset)", nFiles, pairs)
 	if pairs == 0 {
 		c.Violation("harness-vacuous", "no pair of modules of equal type and size was found: the transplant enumeration is empty", nil)
 	}
@@ -1872,10 +2377,12 @@ func scenarioStrippedSignature(c *core.Ctx) {
 
 func run(c *core.Ctx) {
 	c.Res.Rule = "files: rows of 5 columns (int64, string, optional string, list of strings, int64; every value a 60-bit random marker) written with random options " +
-		"(page version, codec, dictionary, row groups, rows per page, bloom filters, key length, AAD prefix, chosen or random file identifier) x {encrypted, signed plaintext footer} x {footer key only, column keys}; " +
-		"each file is parsed independently (own AES-GCM, AADs from the model) module by module, read back (all rows, after SeekToRow with and without page index, page cursors with random histories, reader lacking a column key) and scanned for markers; " +
+		"(page version, codec, dictionary, row groups, rows per page, bloom filters, key length, AAD prefix, chosen or random file identifier) x {encrypted, signed plaintext footer} x {footer key only, own keys for two columns, own keys for all columns}; " +
+		"each file is parsed independently (own AES-GCM, AADs from the model; crypto_metadata of every column chunk = the variant and path the key assignment requires) module by module, read back (all rows, after SeekToRow with and without page index, page cursors with random histories, reader lacking a column key, reader holding the footer key only) and scanned for markers; " +
+		"histories: 2-3 files written from ONE EncryptionConfig value (new writers constructed from it one after another or all up front, writers reused through Reset: nr nn nrr nrn nnr nnn) x footer mode x key assignment, every file checked like a fresh file, " +
+		"and, when no identifier is configured, pairwise distinct aad_file_unique and rejection of modules of one file put at the same ordinals of another; " +
 		"tamper enumeration on small files with equal-sized modules: one bit of every byte (quick: every 9th byte and the 20 first/last) of every module, length field values, file truncation inside a module, " +
-		"every replacement of a module by another of the same type and size (same file; twin file with the same keys), wrong keys. A case = one file check or one tampered read; non-trivial = the file has more than 8 modules / any tampered read."
+		"every replacement of a module by another of the same type and size (same file; twin file with the same keys and another explicit identifier; second file from the same configuration value without identifier, by another writer or by the same writer after Reset), wrong keys. A case = one file check or one tampered read; non-trivial = the file has more than 8 modules / any tampered read."
 	if c.HasOracle() {
 		lim := c.Ask("c18.limits")
 		want := fmt.Sprintf("%x %x %x", 32767, parquet.MaxRowGroups, parquet.MaxColumnIndex)
@@ -1885,7 +2392,7 @@ func run(c *core.Ctx) {
 	}
 	// (a)(b)(c)
 	t0 := time.Now()
-	nFiles := c.N(200, 900)
+	nFiles := c.N(170, 800)
 	var vm []string
 	for i := 0; i < nFiles; i++ {
 		p := genParams(c, i)
@@ -1903,6 +2410,21 @@ func run(c *core.Ctx) {
 	if scanWitnessFiles > 0 && (scanWitness["id"] == 0 || scanWitness["name"] == 0 || scanWitness["val"] == 0 || scanWitness["tags"] == 0) {
 		c.Violation("harness-vacuous", "the plaintext scan does not find the markers in unencrypted files either", nil)
 	}
+	// histories of files from one configuration value
+	th := time.Now()
+	nHist := c.N(36, 144)
+	for i := 0; i < nHist; i++ {
+		p := genHistory(c, i)
+		if c.Probe(func() { checkHistory(c, p, false) }) {
+			checkHistory(c, shrinkHistory(c, p), true)
+		} else {
+			checkHistory(c, p, true)
+		}
+		if i < 3 {
+			c.Sample(map[string]any{"history": p.Hist.describe(), "params": p})
+		}
+	}
+	c.Note("histories: %d (%d files) in %.1fs", nHist, histFiles(nHist), time.Since(th).Seconds())
 	t1 := time.Now()
 	scenarioBeginRowGroup(c)
 	scenarioStrippedSignature(c)
@@ -1919,6 +2441,14 @@ func run(c *core.Ctx) {
 	c.Vm("Definition mismatches := filter (fun '(pfx, fu, code, rg, col, pg, want) => match oracle_aad pfx fu code rg col pg with Some a => negb (beq a want) | None => true end) cases.")
 	c.Vm("Definition M := Eval vm_compute in (length cases, mismatches).\nPrint M.")
 	c.Res.VmCases = len(vm)
+}
+
+func histFiles(n int) int {
+	k := 0
+	for i := 0; i < n; i++ {
+		k += len(historyOps[(i/6)%len(historyOps)])
+	}
+	return k
 }
 
 // vmCases: AADs under which modules of a real file opened with AES-GCM.
@@ -1966,7 +2496,9 @@ func shrinkFile(c *core.Ctx, p *fparams) *fparams {
 			func(q *fparams) bool { ok := q.Codec != "uncompressed"; q.Codec = "uncompressed"; return ok },
 			func(q *fparams) bool { ok := q.Dict; q.Dict = false; return ok },
 			func(q *fparams) bool { ok := q.Prefix != 0; q.Prefix = 0; return ok },
-			func(q *fparams) bool { ok := q.ColKeys; q.ColKeys = false; return ok },
+			func(q *fparams) bool { ok := q.AllKeys; q.AllKeys = false; q.ColKeys = true; return ok },
+			func(q *fparams) bool { ok := q.ColKeys || q.AllKeys; q.ColKeys, q.AllKeys = false, false; return ok },
+			func(q *fparams) bool { ok := q.Hist != nil; q.Hist = nil; return ok },
 			func(q *fparams) bool { ok := q.KeyLen != 16; q.KeyLen = 16; return ok },
 			func(q *fparams) bool { ok := q.PageRows < 64; q.PageRows = 64; return ok },
 		} {
@@ -1991,15 +2523,9 @@ func replay(c *core.Ctx, raw json.RawMessage) {
 	}
 	switch r.Kind {
 	case "tamper":
-		t := buildTamperFile(c, &r.Case.Params)
+		t, other := buildTamperPair(c, &r.Case.Params, r.Case.Mut.From)
 		if t == nil {
 			return
-		}
-		var other *tfile
-		if r.Case.Mut.Kind == "xfile" {
-			q := r.Case.Params
-			q.FileID++
-			other = buildTamperFile(c, &q)
 		}
 		// offsets of the replay are those of the file written now: nonces are
 		// random but sizes are a function of the parameters
@@ -2010,6 +2536,10 @@ func replay(c *core.Ctx, raw json.RawMessage) {
 		scenarioPageOrdinals(c)
 	case "stripped-signature":
 		scenarioStrippedSignature(c)
+	case "history":
+		if r.Params != nil && r.Params.Hist != nil {
+			checkHistory(c, r.Params, true)
+		}
 	default:
 		if r.Params != nil {
 			checkFile(c, r.Params, true)
